@@ -195,6 +195,16 @@ def generate():
     for nme, l in zip(names, ctx):
         L.append("  | .%s => \"%s\"" % (nme, l["path"]))
     L.append("")
+    L.append("/-- constructor name as printed by the harness -/")
+    L.append("def Field.name : Field → String")
+    for nme in names:
+        L.append("  | .%s => \"%s\"" % (nme, nme))
+    L.append("")
+    L.append("/-- position in `Field.all` -/")
+    L.append("def Field.idx : Field → Nat")
+    for k, nme in enumerate(names):
+        L.append("  | .%s => %d" % (nme, k))
+    L.append("")
     L.append("def Field.kind : Field → Kind")
     for nme, l in zip(names, ctx):
         L.append("  | .%s => .%s" % (nme, l["kind"]))
